@@ -69,7 +69,8 @@ func newStyleFor(html *HTML, sheets []sheet, presentationalHints bool,
 		for _, decl := range validation.PreprocessDeclarations(styleAttr.baseUrl, styleAttr.declaration) {
 			// name, values, importance = decl
 			precedence := declarationPrecedence("author", decl.Important)
-			we := weight{precedence: precedence, specificity: styleAttr.specificity}
+			// presentational hints come with a zero specificity, style attributes do not
+			we := weight{precedence: precedence, specificity: styleAttr.specificity, styleAttr: styleAttr.specificity != selector.Specificity{}}
 			oldWeight := style[decl.Name].weight
 			if oldWeight.isNone() || oldWeight.Less(we) {
 				style[decl.Name] = weigthedValue{weight: we, value: decl.Value, shortand: decl.Shortand}
@@ -1083,6 +1084,7 @@ type Element interface {
 
 type weight struct {
 	precedence  uint8
+	styleAttr   bool // from a style attribute: outranks every selector
 	specificity selector.Specificity
 }
 
@@ -1092,7 +1094,13 @@ func (w weight) isNone() bool {
 
 // Less return `true` if w <= other
 func (w weight) Less(other weight) bool {
-	return w.precedence < other.precedence || (w.precedence == other.precedence && (w.specificity.Less(other.specificity) || w.specificity == other.specificity))
+	if w.precedence != other.precedence {
+		return w.precedence < other.precedence
+	}
+	if w.styleAttr != other.styleAttr {
+		return other.styleAttr
+	}
+	return w.specificity.Less(other.specificity) || w.specificity == other.specificity
 }
 
 type weigthedValue struct {
